@@ -26,14 +26,17 @@ import kgen
 ID = 'C14'
 TITLE = 'OpenMVG export then import preserves images, poses, structure and matches'
 GEN = []
-RULE = ('each case = one generated dataset inside OpenMVG\'s range (kgen base: sensor ids, timestamps, orphan poses, point rows; then '
-        '1..6 uniquely named images over 5 directory layouts, 1..2 used cameras among SIMPLE_PINHOLE / PINHOLE / SIMPLE_RADIAL / '
-        'RADIAL / OPENCV / FULL_OPENCV (a few not representable: fx != fy, k4..k6 != 0), every image posed with a quaternion '
-        'among unit / near-180-degree / scaled / axis / small-angle, one keypoints type sift|SIFT float32|float64 x 4|6, uint8 x '
-        '128 descriptors, 0..6 points x 3|6 columns with observations, 0..4 match pairs with integer index pairs), run with and '
-        'without path flattening, both intrinsic layouts, image action skip or copy; a few cases have colliding flattened names '
-        '(outside the statement: correspondence only); distinct non-trivial = distinct cases with at least two images, a '
-        'non-axis rotation and either observations or matches')
+RULE = ('each case = one generated dataset inside OpenMVG\'s range (kgen base: sensor ids incl. non-camera sensors, timestamp styles, '
+        'orphan poses; then 1..6 uniquely named images over the directory layouts top / onedir / common / mixed / flip (names whose '
+        'order changes when "/" becomes "_"), 1..2 used cameras (+ sometimes an unused one) among SIMPLE_PINHOLE / PINHOLE / '
+        'SIMPLE_RADIAL / RADIAL / OPENCV / FULL_OPENCV (k3 zero or not; about 15% not representable: fx != fy, k4..k6 != 0), every '
+        'image posed with a quaternion among unit / near-180-degree (w down to 1e-16) / scaled 1e-2..1e2 either sign / axis / '
+        'small-angle and |t| up to 1e5, one keypoints type sift|SIFT float32|float64 x 4|6 with 2..5 rows per image (8% of the '
+        'cases have images with 0 or 1 row), uint8 x 128 descriptors, 0..12 points x 3|6 columns with up to 10 observations, 0..4 '
+        'match pairs with 0..4 integer index pairs), run with and without path flattening, both intrinsic layouts, image action '
+        'skip or copy; a fixed head covers every layout x flattening, flattening under a common directory and thin keypoint files; '
+        '5% of the cases have colliding flattened names (outside the statement: correspondence only); distinct non-trivial = '
+        'distinct cases with at least two images, a non-axis rotation and observations or matches')
 ASSUMPTIONS = [
     'image names are normalised relative paths (no empty, "." or ".." component) and unique; os.path.commonpath / relpath / '
     'dirname / basename / join are modelled on such names only',
